@@ -22,7 +22,10 @@ Theorem C09_push :
          exists (v' : vec) (u' : uw),
            push_unchecked c (VClone bs k) (v, u) = Ok tt (v', u') /\
            Rep c v' (xs ++ [n]) /\
-           vbk v' = vbk v /\ unext u' = unext u + 1 /\ ufuse u' = None /\ uevents u' = EClone t0 n :: uevents u.
+           vbk v' = vbk v /\
+           unext u' = unext u + 1 /\
+           ufuse u' = None /\
+           uevents u' = EClone t0 n :: uevents u /\ (vlen v < vcap v -> vcap v' = vcap v /\ vgen v' = vgen v).
 Proof. exact push_clone_ok. Qed.
 
 Theorem C09_insert :
@@ -37,7 +40,10 @@ Theorem C09_insert :
          exists (v' : vec) (u' : uw),
            insert_unchecked c (N.of_nat i) (VClone bs k) (v, u) = Ok tt (v', u') /\
            Rep c v' (sp_insert i n xs) /\
-           vbk v' = vbk v /\ unext u' = unext u + 1 /\ ufuse u' = None /\ uevents u' = EClone t0 n :: uevents u.
+           vbk v' = vbk v /\
+           unext u' = unext u + 1 /\
+           ufuse u' = None /\
+           uevents u' = EClone t0 n :: uevents u /\ (vlen v < vcap v -> vcap v' = vcap v /\ vgen v' = vgen v).
 Proof. exact insert_clone_ok. Qed.
 
 Theorem C09_push_panics :
@@ -53,6 +59,49 @@ Theorem C09_push_panics :
 Proof. exact push_clone_panics. Qed.
 
 
+(* ---- histories ---- *)
+From AV.Model Require Import Interp.
+From AV.Spec Require Import WorldSpec.
+From AV.Proofs Require Import WorldProofs.
+(** WHOLE HISTORIES: a lazy clone of an element of another vector (any nesting depth) offered to push or insert - erased or typed path - is a step of the history fragment of AV.Props.C01 ([WorldSpec.sp_offer_lazy]): exactly one Clone call, at the moment of consumption, of exactly the source element's current value; the destination receives the NEW value at the right place, the source vector is untouched; an offer that is refused (source index, insertion index, full fixed capacity) clones nothing.  [C09_lazy_offer_in_histories] proves that the byte-level machine does this at any point of any history (on top of [C09_push] / [C09_insert] through [C09_raw_action_clone]).  Lazy clones of removal handles and drained elements, and lazy clones consumed by splice or downcast, remain one-step theorems + correspondence. *)
+Theorem C09_raw_action_clone :
+  forall (c : cfg) (vv : vec) (a : avec) (u : uw) (idx : option N) (bs : mem) (t0 : N) (k : bool),
+         cfg_wf c ->
+         VI c vv a ->
+         dec (szn c) bs = Some t0 ->
+         ufuse u = None ->
+         NoFault.can_take c vv 1 ->
+         let n := tok c (unext u) in
+         match put_value c a idx n with
+         | inl xs' =>
+             exists (v' : vec) (u' : uw),
+               raw_action c idx (VClone bs k) (vv, u) = Ok tt (v', u') /\
+               VI c v' (with_xs a xs') /\
+               unext u' = unext u + 1 /\ ufuse u' = None /\ uevents u' = EClone t0 n :: uevents u
+         | inr p => raw_action c idx (VClone bs k) (vv, u) = Panic p (vv, u)
+         end.
+Proof. exact raw_action_clone_spec. Qed.
+
+Theorem C09_lazy_offer_in_histories :
+  forall (c : cfg) (w : world) (st : astate) (a : api) (vid : nat) (idx : option N) 
+           (d : N) (src : nat) (sidx : N) (r : sres),
+         cfg_wf c ->
+         WRep c w st ->
+         ufuse (wuw w) = None ->
+         adm_vec c w vid ->
+         sp_offer_lazy c st (unext (wuw w)) vid idx src sidx = Some r ->
+         res_matches c w
+           ((do o <- make_offer c (SLazy d src sidx);
+             let o0 := match a with
+                       | Erased => o
+                       | Typed => unchecked o
+                       end in
+             offer_into c vid o0 (raw_action c idx);; ret (0, [])) w) r.
+Proof. exact exec_offer_lazy. Qed.
+
+(* ---- end histories ---- *)
 Print Assumptions C09_push.
 Print Assumptions C09_insert.
 Print Assumptions C09_push_panics.
+Print Assumptions C09_raw_action_clone.
+Print Assumptions C09_lazy_offer_in_histories.
